@@ -164,6 +164,47 @@ func runCase(rt *rapid.T) {
 		}
 	}
 	bn.SetDuties(tables)
+	buildExpect := func() map[core.Duty]map[core.PubKey]string {
+		expect := map[core.Duty]map[core.PubKey]string{}
+		add := func(d core.Duty, v eth2p0.ValidatorIndex, def string) {
+			if expect[d] == nil {
+				expect[d] = map[core.PubKey]string{}
+			}
+			pk := core.PubKeyFrom48Bytes(pubkeyOf(v))
+			if _, dup := expect[d][pk]; !dup { // the first definition per (duty, validator) wins
+				expect[d][pk] = def
+			}
+		}
+		for e := 0; e <= nEpochs+1; e++ {
+			ep := eth2p0.Epoch(e)
+			for v, d := range tables.Att[ep] {
+				if v < 70 && activeIn(v, ep) {
+					add(core.NewAttesterDuty(uint64(d.Slot)), v, fmt.Sprint(d))
+					add(core.NewAggregatorDuty(uint64(d.Slot)), v, fmt.Sprint(d))
+				}
+			}
+			for _, d := range tables.Pro[ep] {
+				if d.ValidatorIndex < 70 && activeIn(d.ValidatorIndex, ep) {
+					add(core.NewProposerDuty(uint64(d.Slot)), d.ValidatorIndex, fmt.Sprint(d))
+				}
+			}
+			for v, d := range tables.Sync[ep] {
+				if v < 70 && activeIn(v, ep) {
+					for s := uint64(e) * spe; s < uint64(e+1)*spe; s++ {
+						add(core.NewSyncContributionDuty(s), v, fmt.Sprint(d))
+					}
+				}
+			}
+		}
+		return expect
+	}
+	type tableVersion struct {
+		fromSlot uint64 // first slot whose duties follow this version of the tables
+		expect   map[core.Duty]map[core.PubKey]string
+	}
+	var versions []tableVersion
+	lastChangeSlot := uint64(0)
+	reassigned := 0
 	dc := eth2wrap.NewDutiesCache(bn, nil)
 	bn.SetDutiesCache(dc.ProposerDutiesCache, dc.AttesterDutiesCache, dc.SyncCommDutiesCache)
 
@@ -264,7 +305,52 @@ func runCase(rt *rapid.T) {
 				// its resolved epoch and resolves them again in the next slot (assignments unchanged here)
 				back := uint64(rapid.IntRange(1, 2).Draw(rt, "reorgDepthEpochs"))
 				if cur := s / spe; cur >= back {
+					// Half of the reorgs change the assignments of the slots that have not begun yet (this slot
+					// to the end of its epoch), as a reorg does: what is triggered for those slots must follow
+					// the new assignments. Only when the scheduler itself reports this slot's epoch as resolved
+					// (then the event makes it drop exactly that epoch's duties and resolve them afresh; an
+					// event that meets a half-resolved epoch is ignored by design and proves nothing), and only
+					// while the beacon node has been answering at once: a resolution call that is under way
+					// during the event (slow node) may legitimately come back with the old answer. Reorg events
+					// are outside what the property quantifies over; this is the "never altered" clause only.
+					if claimed[s] && slowdowns == 0 && rapid.Bool().Draw(rt, "reorgChangesDuties") {
+						versions = append(versions, tableVersion{fromSlot: lastChangeSlot, expect: buildExpect()})
+						lastChangeSlot = s
+						ep := eth2p0.Epoch(s / spe)
+						epochEnd := (uint64(ep) + 1) * spe
+						bn.MutateDuties(func(t *fakebn.DutyTables) {
+							for _, v := range everyone {
+								d, ok := t.Att[ep][v]
+								if !ok || uint64(d.Slot) < s || rapid.Bool().Draw(rt, "keepAttester") {
+									continue
+								}
+								d.Slot = eth2p0.Slot(s + uint64(rapid.IntRange(0, int(epochEnd-s)-1).Draw(rt, "newAttSlot")))
+								d.CommitteeIndex = (d.CommitteeIndex + 1) % 4
+								t.Att[ep][v] = d
+								reassigned++
+							}
+							var pro []eth2v1.ProposerDuty
+							for _, d := range t.Pro[ep] {
+								if uint64(d.Slot) < s {
+									pro = append(pro, d)
+								}
+							}
+							for sl := s; sl < epochEnd; sl++ {
+								if rapid.IntRange(0, 2).Draw(rt, "newProposal?") != 0 {
+									continue
+								}
+								v := everyone[rapid.IntRange(0, len(everyone)-1).Draw(rt, "newProposer")]
+								if v < 70 && !activeIn(v, ep) {
+									continue
+								}
+								pro = append(pro, eth2v1.ProposerDuty{PubKey: pubkeyOf(v), Slot: eth2p0.Slot(sl), ValidatorIndex: v})
+								reassigned++
+							}
+							t.Pro[ep] = pro
+						})
+					}
 					sched.HandleChainReorgEvent(context.Background(), eth2p0.Epoch(cur-back))
+					dc.InvalidateCache(context.Background(), eth2p0.Epoch(cur-back)) // the second subscriber of the event, as wired in app.go
 					reorgs = append(reorgs, time.Now())
 					claimed[s] = false
 					script = append(script, fmt.Sprintf("s%d:reorg(e%d)", s, cur-back))
@@ -373,38 +459,19 @@ func runCase(rt *rapid.T) {
 		}
 		return 0
 	}
-	// model: expected definitions per duty
-	expect := map[core.Duty]map[core.PubKey]string{}
-	add := func(d core.Duty, v eth2p0.ValidatorIndex, def string) {
-		if expect[d] == nil {
-			expect[d] = map[core.PubKey]string{}
+	// model: expected definitions per duty (the final tables; earlier versions were recorded at each reorg that
+	// changed assignments)
+	versions = append(versions, tableVersion{fromSlot: lastChangeSlot, expect: buildExpect()})
+	expectFor := func(slot uint64) map[core.Duty]map[core.PubKey]string {
+		exp := versions[0].expect
+		for _, v := range versions {
+			if v.fromSlot <= slot {
+				exp = v.expect
+			}
 		}
-		pk := core.PubKeyFrom48Bytes(pubkeyOf(v))
-		if _, dup := expect[d][pk]; !dup { // the first definition per (duty, validator) wins
-			expect[d][pk] = def
-		}
+		return exp
 	}
-	for e := 0; e <= nEpochs+1; e++ {
-		ep := eth2p0.Epoch(e)
-		for v, d := range tables.Att[ep] {
-			if v < 70 && activeIn(v, ep) {
-				add(core.NewAttesterDuty(uint64(d.Slot)), v, fmt.Sprint(d))
-				add(core.NewAggregatorDuty(uint64(d.Slot)), v, fmt.Sprint(d))
-			}
-		}
-		for _, d := range tables.Pro[ep] {
-			if d.ValidatorIndex < 70 && activeIn(d.ValidatorIndex, ep) {
-				add(core.NewProposerDuty(uint64(d.Slot)), d.ValidatorIndex, fmt.Sprint(d))
-			}
-		}
-		for v, d := range tables.Sync[ep] {
-			if v < 70 && activeIn(v, ep) {
-				for s := uint64(e) * spe; s < uint64(e+1)*spe; s++ {
-					add(core.NewSyncContributionDuty(s), v, fmt.Sprint(d))
-				}
-			}
-		}
-	}
+	expect := versions[len(versions)-1].expect
 	seen := map[core.Duty]int{}
 	skipped := 0
 	var ts []string
@@ -417,7 +484,7 @@ func runCase(rt *rapid.T) {
 		if tr.at.Before(slotStart.Add(offset(tr.duty.Type))) {
 			rt.Fatalf("EARLY: duty %v triggered at slot start %+v, its offset is %v", tr.duty, tr.at.Sub(slotStart), offset(tr.duty.Type))
 		}
-		want := expect[tr.duty]
+		want := expectFor(tr.duty.Slot)[tr.duty]
 		for pk, def := range tr.defs {
 			w, ok := want[pk]
 			if !ok {
@@ -486,7 +553,7 @@ func runCase(rt *rapid.T) {
 	nontrivial := (failures > 0 || skipped > 0 || lifecycle) && boundary
 	sort.Strings(ts)
 	vstat.Case(fmt.Sprintf("%d/%d/%d/%d|%v|%v", spe, nEpochs, nCluster, startSlot, script, strings.Join(ts, ",")), nontrivial,
-		cls("failed_resolution", failures > 0), cls("slow_beacon", slowdowns > 0), cls("skipped_slot", skipped > 0), cls("activation_or_exit", lifecycle), cls("foreign_leak", bn.LeakForeign && nForeign > 0), cls("beacon_assigns_inactive_cluster_validators", inactiveAssigned), cls("other_duties_cache_user", lookAheads > 0), cls("calm_beacon_node", calm), cls("complete_slots_checked", complete > 0), cls("reorg_event", len(reorgs) > 0), cls("head_events_with_mutating_fetch_only_receiver", headEvents > 0), "features:"+strings.Join(features, "+"))
+		cls("failed_resolution", failures > 0), cls("slow_beacon", slowdowns > 0), cls("skipped_slot", skipped > 0), cls("activation_or_exit", lifecycle), cls("foreign_leak", bn.LeakForeign && nForeign > 0), cls("beacon_assigns_inactive_cluster_validators", inactiveAssigned), cls("other_duties_cache_user", lookAheads > 0), cls("calm_beacon_node", calm), cls("complete_slots_checked", complete > 0), cls("reorg_event", len(reorgs) > 0), cls("reorg_changed_assignments", reassigned > 0), cls("head_events_with_mutating_fetch_only_receiver", headEvents > 0), "features:"+strings.Join(features, "+"))
 	vstat.Count("triggers", int64(len(trigs)))
 	vstat.Count("complete_duties_checked", int64(complete))
 	if nontrivial && skipped > 0 && vstat.WantSample("skipped") {
